@@ -50,6 +50,10 @@ def cases(tier, seed):
                             continue
                         out.append({'kind': kind, 'shape': shape, 'grid': list(g), 'save': save, 'dtype': dtype,
                                     'cost': (300 if save else 10) * g[0] * g[1]})
+                        # a second grid on the SAME layout manager changes layout between the operations (state kept in the manager)
+                        if save and dtype == 'float64' and g in (((1, 2),) if tier == 'quick' else ((1, 2), (2, 2))) and shape == shapes[kind][0] and (kind == 'swapper3' or tier == 'thorough'):
+                            out.append({'kind': kind, 'shape': shape, 'grid': list(g), 'save': save, 'dtype': dtype, 'shared': True,
+                                        'cost': 500 * g[0] * g[1]})
     return out
 
 
@@ -101,11 +105,20 @@ def run_case(case):
                 man = LayoutSwapper(comm, [dict(LP), dict(LV), dict(LPOL)], [nprocs, nprocs[0], nprocs[1]], eta, start)
             g = Grid(eta, [None] * len(shape), man, start, comm, dtype=dtype, allocateSaveMemory=savemem)
             g.getAllData()[:] = lay.block(PAT[0], g.getLayout(start))
+            g2 = None
+            if case.get('shared'):
+                g2 = Grid(eta, [None] * len(shape), man, names[-1], comm, dtype=dtype)
+                g2.getAllData()[:] = lay.block(PAT[1], g2.getLayout(names[-1]))
             model = {'lay': start, 'data': 0, 'saved': None}
             viol = []
             moved = 0
             for op in hist:
                 poison(g)
+                if g2 is not None:
+                    for nm2 in (names[0], names[-1]):
+                        g2.setLayout(nm2)
+                        if not lay.same(np.asarray(g2.getAllData()), lay.block(PAT[1], g2.getLayout(nm2))):
+                            viol.append('second-grid-on-same-manager-corrupted')
                 before = (g.currentLayout, getattr(g, 'notSaved', None), g._dataIdx, g._buffIdx, g._saveIdx)
                 try:
                     if op[0] == 'lay':
